@@ -4,6 +4,8 @@ GROUPS = [
     dict(name='fifo_trypop', tu='fifo.c', harness='h_trypop', mode='H', loop_contracts=True, defs=['-DVERIF_LOOP_FLAG'], functions=['mpmc_fifo_trypop', 'hazard_pointer_using', 'hazard_pointer_done_using'], unwind=6, exact_unwind=True, timeout=900),
     dict(name='fifo_push', tu='fifo.c', harness='h_push', mode='H', loop_contracts=True, defs=['-DVERIF_LOOP_FLAG'], functions=['mpmc_fifo_push', 'hazard_pointer_using', 'hazard_pointer_done_using'], unwind=6, exact_unwind=True, timeout=900),
 ]
+# the reclamation layer the FIFO's safety rests on (anchors: hazard_pointer.h, hazard_pointer.c): C14's obligation groups, run here as well
+IMPORTS = [dict(prop='C14', groups=['compare', 'binary_search_safety', 'binary_search_le6', 'scan_2x2', 'using_free'])]
 TRUSTED = ['hazard_pointer_free: by contract here (retire this node); its own behaviour is C14 (groups using_free, scan_2x2)']
 ASSUMPTIONS = ['A.7 hazard-pointer rely: a node found equal to fifo->head/tail by a read that follows the publication of a hazard pointer to it (store, full fence, re-read) is not reclaimed until that slot is overwritten (this is what C14 proves of scan, bounded)',
                'SC; weak CAS modelled strong (A3)', 'node pool of 4 queue nodes + mine; every reuse/ABA pattern among them']
